@@ -34,6 +34,7 @@ META["text"] += " R6 also covers the tree vocabulary of the search: is_descenden
 META["text"] += " R6 also: before the search the frontier holds [d, c] for every candidate c other than the reported-winner argument and every d != c. R7 also borrows C14.R3 (the NEB predicates' tables)."
 META["text"] += " R6 also: NENAssertion.subsumes holds iff every tail the other assertion rules out has one of this assertion's tails as a suffix (forall-exists)."
 META["text"] += ' R6 also: the search ranges over the contest and winner handed in (the parameters are not re-bound, the candidate list is not edited).'
+META["text"] += ' R3 also: the difficulty functions shipped with the search are finite for every strict win (inf only under an exact sign test of the margin, never under a tolerance).'
 
 
 def r3_estimates(chk):
